@@ -504,6 +504,8 @@ func Eval(c *core.Ctx, line string) *core.Case {
 	switch op {
 	case "vaddr", "varp", "vip4":
 		return evalView(t, line)
+	case "vmacentry":
+		return evalMACEntry(t, line)
 	case "fl", "fls", "flw", "spec":
 	default:
 		return nil
@@ -660,6 +662,56 @@ func cut(s string) string {
 		return s[:160] + "…"
 	}
 	return s
+}
+
+// ---------------------------------------------------------------------------------------------
+// table entries: vmacentry <mac> <flags> <ip4> <nhosts> - the String() / FastLog text of a MAC entry with that many linked
+// hosts (flags: bit 0 captured, bit 1 online).  The text contains the wall-clock age of the entry, so the oracle compares
+// the deterministic head of the line - module prefix, mac, flags, the three addresses and the host COUNT in decimal -
+// with the standard library's rendering (strconv.Itoa(len(HostList)), netip text).  Oracle only: the model has no entries.
+func evalMACEntry(t []string, line string) *core.Case {
+	if len(t) != 5 {
+		return nil
+	}
+	mac, k1 := unhex(t[1])
+	flags, e1 := strconv.Atoi(t[2])
+	ipb, k2 := unhex(t[3])
+	n, e2 := strconv.Atoi(t[4])
+	if !k1 || !k2 || e1 != nil || e2 != nil || len(mac) != 6 || n < 0 || n > 70000 {
+		return nil
+	}
+	e := &packet.MACEntry{MAC: net.HardwareAddr(mac), Captured: flags&1 != 0, Online: flags&2 != 0, LastSeen: time.Now()}
+	if a, ok := addrOf(ipb); ok && a.Is4() {
+		e.IP4 = a
+	}
+	for i := 0; i < n; i++ {
+		e.HostList = append(e.HostList, &packet.Host{MACEntry: e})
+	}
+	text := core.Safely(func() string { return e.String() })
+	want := " mac=" + net.HardwareAddr(mac).String()
+	if e.Captured {
+		want += " captured=true"
+	}
+	if e.Online {
+		want += " online=true"
+	}
+	ipText := func(a netip.Addr) string {
+		if a.IsValid() {
+			return a.String()
+		}
+		return "nil"
+	}
+	want += " ip=" + ipText(e.IP4) + " ip6=nil lla=nil hosts=" + strconv.Itoa(n) + " lastSeen="
+	return &core.Case{Line: line, Impl: "text " + strconv.Itoa(len(text)), Cmp: func(string, string) bool { return true },
+		Oracle: func() (string, string) {
+			if text == "panic" {
+				return "String() of a MAC entry whose text fits the buffer panicked", ""
+			}
+			if !strings.Contains(text, want) {
+				return fmt.Sprintf("String() of a MAC entry with %d hosts differs from the standard-library rendering of its fields: got %q, want it to contain %q", n, cut(text), want), ""
+			}
+			return "", ""
+		}}
 }
 
 // ---------------------------------------------------------------------------------------------
